@@ -312,9 +312,11 @@ func countMergeShape(c *explore.Ctx, r *mergeRun, got *obs.Obs) {
 // largeMerges: a few merges crossing cardinality 1024 / 1024-document boundaries.
 func largeMerges(c *explore.Ctx, check func(scope string, idx int64, r *mergeRun)) {
 	// implemented via explicit batches (not SegSpec): see largeMergeCase
-	sizes := [][2]int{{1023, 2}, {1024, 1025}, {600, 600}}
+	// a negative size n means: a small segment of -n documents that has the field but not the
+	// term (so the term's iterator index differs from its position among the term's iterators)
+	sizes := [][2]int{{1023, 2}, {1024, 1025}, {600, 600}, {-3, 2048}, {2048, -3}}
 	if c.Thorough() {
-		sizes = append(sizes, [2]int{2049, 1}, [2]int{1025, 1024}, [2]int{1500, 1600})
+		sizes = append(sizes, [2]int{2049, 1}, [2]int{1025, 1024}, [2]int{1500, 1600}, [2]int{-1, 3073}, [2]int{-5, 1100})
 	}
 	var idx int64
 	for _, sz := range sizes {
@@ -339,7 +341,15 @@ func largeMerges(c *explore.Ctx, check func(scope string, idx int64, r *mergeRun
 func largeMergeCase(n0, n1, pat, dropPat int, out uint32) *mergeRun {
 	r := &mergeRun{cfg: mergeCfg{Name: fmt.Sprintf("large n=%d,%d pat=%d drop=%d", n0, n1, pat, dropPat), InModes: []uint32{1025}, Out: out}}
 	for i, n := range []int{n0, n1} {
-		batch := gen.Large(n, pat, 1)
+		var batch []model.Doc
+		if n < 0 {
+			n = -n
+			for j := 0; j < n; j++ {
+				batch = append(batch, model.Doc{{N: "a", Len: 1, Terms: []model.Term{{T: "w", Freq: 1}}}})
+			}
+		} else {
+			batch = gen.Large(n, pat, 1)
+		}
 		// give every 97th doc an _id so that C03's content check has anchors
 		for j := range batch {
 			if j%97 == 0 || j == n-1 {
@@ -369,7 +379,7 @@ func largeMergeCase(n0, n1, pat, dropPat int, out uint32) *mergeRun {
 		case 2:
 			bm, ds = roaring.New(), map[uint64]bool{}
 			for j := 0; j < n; j++ {
-				if j%1024 < 3 || (i == 1 && j > 10) {
+				if j%1024 < 3 || (n > 10 && j > n/2-75) || (i == 1 && j > 10) {
 					bm.Add(uint32(j))
 					ds[uint64(j)] = true
 				}
